@@ -776,6 +776,37 @@ fn render_const<'tcx>(tcx: TyCtxt<'tcx>, o: &mut Vec<(&'static str, J)>, v: Cons
             }
         }
         ConstValue::ZeroSized => {}
+        ConstValue::Indirect { alloc_id, offset } if matches!(ty.kind(), ty::Array(e, _) if matches!(e.kind(), ty::Ref(_, i, _) if matches!(i.kind(), ty::Str))) => {
+            // [&str; N]: read the N fat pointers and the strings they point to
+            if let ty::Array(_, len) = ty.kind() {
+                if let Some(n) = len.try_to_target_usize(tcx) {
+                    let a = tcx.global_alloc(alloc_id).unwrap_memory().inner();
+                    let ps = tcx.data_layout.pointer_size();
+                    let mut items = vec![];
+                    for i in 0..n {
+                        let off = offset + ps * (2 * i);
+                        let p = a.read_scalar(&tcx, rustc_middle::mir::interpret::alloc_range(off, ps), true);
+                        let l = a.read_scalar(&tcx, rustc_middle::mir::interpret::alloc_range(off + ps, ps), false);
+                        if let (Ok(p), Ok(l)) = (p, l) {
+                            if let (Ok(ptr), Ok(len)) = (p.to_pointer(&tcx).discard_err().ok_or(()), l.to_target_usize(&tcx).discard_err().ok_or(())) {
+                                if let (Some(prov), o2) = ptr.into_raw_parts() {
+                                    if let Some(rustc_middle::mir::interpret::GlobalAlloc::Memory(sa)) = tcx.try_get_global_alloc(prov.alloc_id()) {
+                                        let sa = sa.inner();
+                                        let st = o2.bytes() as usize;
+                                        let en = st + len as usize;
+                                        if en <= sa.len() {
+                                            let bytes = sa.inspect_with_uninit_and_ptr_outside_interpreter(st..en);
+                                            items.push(J::s(String::from_utf8_lossy(bytes).to_string()));
+                                        }
+                                    }
+                                }
+                            }
+                        }
+                    }
+                    o.push(("strs", J::Arr(items)));
+                }
+            }
+        }
         ConstValue::Slice { .. } | ConstValue::Indirect { .. } => {
             let is_str_like = match ty.kind() {
                 ty::Ref(_, inner, _) => matches!(inner.kind(), ty::Str),
